@@ -183,6 +183,25 @@ pub fn check_b32(arr: &[u8; 32], ctx: &mut Ctx) -> Result<(), Failure> {
         verdict_check::<Min>(name, &got, &want, arr, ctx)?;
     }
     fragmented(arr, &want, ctx)?;
+    // decoding is a function of the 32 bytes: the verdict for `arr` is the same again after strings that share
+    // its low or its high half have been decoded (a memo, a cache or leftover state keyed by part of the input)
+    {
+        let first_ark = ark::Encoding(*arr).vartime_decompress().map(|e| e.vartime_compress().0).ok();
+        let first_min = min::Encoding(*arr).vartime_decompress().map(|e| e.vartime_compress().0).ok();
+        let gen_enc = CURVE.encode_bytes(&crate::refmodel::GEN);
+        let mut lo_same = *arr;
+        lo_same[16..].copy_from_slice(&gen_enc[16..]);
+        let mut hi_same = *arr;
+        hi_same[..16].copy_from_slice(&gen_enc[..16]);
+        for other in [lo_same, hi_same, gen_enc] {
+            let _ = ark::Encoding(other).vartime_decompress();
+            let _ = min::Encoding(other).vartime_decompress();
+        }
+        ctx.sub_eval();
+        if ark::Encoding(*arr).vartime_decompress().map(|e| e.vartime_compress().0).ok() != first_ark || min::Encoding(*arr).vartime_decompress().map(|e| e.vartime_compress().0).ok() != first_min {
+            ctx.report("C02|decode|not-a-function".to_string(), format!("decoding {} gives a different result after related strings were decoded", hex::encode(arr)))?;
+        }
+    }
     Ok(())
 }
 
